@@ -359,7 +359,7 @@ func report(cfg *PropCfg, tier string, seed int64, results []*HarnessResult, hcf
 		tb = append(tb, "bbolt model: byte-key sorted buckets, Update all-or-nothing on nil error (crash points before the callback and after commit), View on a snapshot")
 	}
 	if has("encoding/json") || has("toml") {
-		as = append(as, "reflection-driven text codecs (encoding/json, BurntSushi/toml, hexjson) are an identity codec on the Go value: byte-level text round trips are outside the claim")
+		as = append(as, "encoding/json and hexjson are modelled structurally (JSON value trees built by walking the Go value by type and json tags; custom MarshalJSON / UnmarshalJSON methods of drand's types are executed); BurntSushi/toml is an identity codec on the Go value; byte-level text (escaping, number formats, key order, TOML syntax) and protobuf wire bytes are outside the claim")
 	}
 	if has("opaque.") || has("tracer.NewSpan") {
 		as = append(as, "logging, tracing and metrics calls are no-ops (their arguments are recorded only where a property observes them)")
@@ -367,6 +367,27 @@ func report(cfg *PropCfg, tier string, seed int64, results []*HarnessResult, hcf
 	if has("context.") {
 		as = append(as, "context deadlines never fire by themselves; cancellation happens only through cancel functions (or where a harness makes it an environment event)")
 	}
+	if len(activeOverrides) > 0 {
+		for _, o := range activeOverrides {
+			as = append(as, fmt.Sprintf("textual override applied to %s as read from /repo on this run: %q -> %q (the rest of the file is the tree's)", o.File, o.Old, o.New))
+		}
+		if has("zzNewProtocol") {
+			as = append(as, "the kyber key-sharing protocol delivers to every completing node the same qualified set and public polynomial and a share at the node's own index (ideal outcome chosen by the harness); the protocol's own correctness is outside the claim")
+		}
+	}
+	for _, ph := range cfg.Harnesses {
+		for _, tc := range ph.Tiers {
+			if tc.Params["fixed_peer_order"] == 1 {
+				as = append(as, "scenario harnesses: the random order in which peers are tried (rand.Perm) is fixed to the identity")
+			}
+			for _, v := range tc.Variants {
+				if v["fixed_peer_order"] == 1 {
+					as = append(as, "scenario harnesses: the random order in which peers are tried (rand.Perm) is fixed to the identity")
+				}
+			}
+		}
+	}
+	as = dedupStrings(as)
 	if has("time.Now") {
 		as = append(as, "direct time.Now() inside drand is a fixed instant in the engine; harnesses express instants relative to it with margins of at least one hour")
 	}
@@ -435,4 +456,16 @@ func sanitize(s string) string {
 		}
 	}
 	return sb.String()
+}
+
+func dedupStrings(in []string) []string {
+	seen := map[string]bool{}
+	var out []string
+	for _, x := range in {
+		if !seen[x] {
+			seen[x] = true
+			out = append(out, x)
+		}
+	}
+	return out
 }
